@@ -172,7 +172,7 @@ func LoadArchiveFiles(in io.Reader) ([]*BufferedFile, error) {
 			// In this case, the original path was relative when it should have been absolute.
 			return nil, errors.Errorf("chart illegally contains content outside the base directory: %q", hd.Name)
 		}
-		if strings.HasPrefix(n, "..") {
+		if n == ".." || strings.HasPrefix(n, "../") {
 			return nil, errors.New("chart illegally references parent directory")
 		}
 
